@@ -567,3 +567,21 @@ Qed.
 Example ex_doc_wellformed :
   wellformed1 [TOpen "neuroml"; TOpen "network"; TText "x"; TClose "network"; TOpen "cell"; TClose "cell"; TClose "neuroml"] = true.
 Proof. reflexivity. Qed.
+
+(* ---------------------------------------------------------------- strict vs recovering parser *)
+Theorem strict_rejects_truncated : forall d, accepts false d = true ->
+    forall k, k < length d -> accepts false (firstn k d) = false.
+Proof.
+  intros d Ha k Hk.
+  assert (Hw : wellformed1 d = true) by (unfold accepts in Ha; unfold wellformed1; destruct (reader d); auto; discriminate).
+  pose proof (truncated_rejected d Hw k Hk) as Ht. unfold wellformed1 in Ht. unfold accepts.
+  destruct (reader (firstn k d)); try reflexivity; discriminate.
+Qed.
+
+(* a recovering parser loads a cut file as a smaller document: why `recover` must stay off *)
+Theorem recover_accepts_truncated : exists d k,
+    accepts false d = true /\ k < length d /\ accepts true (firstn k d) = true /\ accepts false (firstn k d) = false.
+Proof.
+  exists [TOpen "neuroml"; TOpen "cell"; TClose "cell"; TOpen "network"; TClose "network"; TClose "neuroml"], 3.
+  split; [reflexivity|]. split; [simpl; lia|]. split; reflexivity.
+Qed.
